@@ -88,7 +88,7 @@ func c16ManagerScenario(ops []c16Op) verifrt.Scenario {
 			wg.Wait()
 		}
 		finish := func(res *verifrt.Result) (string, []string) {
-			viol := resultProblems(res)
+			viol := append(resultProblems(res), raceProblems(res)...)
 			timerFired := false
 			for _, p := range res.Points {
 				c := p.Enabled[p.Chosen]
@@ -202,6 +202,10 @@ func runC16() int {
 		clause := strings.SplitN(v, ":", 2)[0]
 		if clause == "panic" {
 			clause = strings.Join(strings.SplitN(v, ":", 3)[:2], "@")
+		}
+		if clause == "data-race" {
+			// the pair of access sites identifies the race
+			return "data-race:" + strings.TrimSpace(strings.SplitN(strings.SplitN(v, ":", 2)[1], " [", 2)[0])
 		}
 		return clause + ":" + scn
 	}
